@@ -390,7 +390,9 @@ pub fn generate(family: &str, seed: u64, tier: &str) -> Vec<String> {
                             if gu(st, "maxlen") > 0 && plen > gu(st, "maxlen") {
                                 continue;
                             }
-                            let mut sc = with(st, json!({"coding":coding,"level":level,"plen":plen,"pk":if st.get("pk").is_some() {"ascii"} else {pk},"seed":r.below(1000),
+                            // (redirect statuses too: the exchange runner never follows, so the response is the caller's)
+                            let mut sc = with(st, json!({"status":([200usize, 301, 404, 302, 200, 303, 500, 307, 206, 308][(level + pi + pk.len()) % 10]),
+                                "coding":coding,"level":level,"plen":plen,"pk":if st.get("pk").is_some() {"ascii"} else {pk},"seed":r.below(1000),
                                 "body":{"kind":framing,"chunkpat":[*r.pick(&[1usize, 13, 4096, 65536, 100000]), *r.pick(&[5usize, 65537, 8192])]}}));
                             if coding == "gzip" && level % 4 == 1 {
                                 sc["gz"] = json!({"name":"payload.bin","comment":"a comment","extra":"XTRA"});
@@ -523,6 +525,18 @@ pub fn framing_row_to_scenario(row: &Value) -> Option<Value> {
     if gu(row, "status") / 100 == 1 || f == "none" {
         // whatever follows a bodiless head must not be read as its body
         sc["g19"] = json!(true);
+    }
+    if f == "none" {
+        // "whatever the header fields say" includes a declared content coding: there is nothing to decode
+        match (extra + gu(row, "status") + cl.len()) % 4 {
+            1 => sc["hdrs"] = json!([["Content-Encoding", "gzip"]]),
+            2 => sc["hdrs"] = json!([["Content-Encoding", "deflate"], ["Vary", "Accept-Encoding"]]),
+            3 => {
+                sc["hdrs"] = json!([["content-encoding", "GZip"]]);
+                sc["steps"] = json!([["send"], ["bytes"]]);
+            }
+            _ => {}
+        }
     }
     Some(sc)
 }
